@@ -142,6 +142,10 @@ pub struct USys {
     /// instance was cancelled is implementation-defined, so the choice floats until the
     /// -ECANCELED completion is seen
     floating: Vec<(usize, u64)>,
+    /// -ECANCELED completions already delivered for a user_data that several outstanding
+    /// operations share, not yet attributed to one of them: the instances that complete
+    /// normally later identify themselves by their results, what remains was the cancelled one
+    cancel_seen: Vec<(usize, u64)>,
 }
 
 const SENTINEL: u8 = 0xEE;
@@ -304,7 +308,7 @@ impl USys {
             let mut cq = r.completion();
             cq.sync();
             let visible = cq.len();
-            if visible != elig.len() && !(self.cfg.page_cache && !self.cfg.odirect) && self.floating.is_empty() {
+            if visible != elig.len() && !(self.cfg.page_cache && !self.cfg.odirect) && self.floating.is_empty() && self.cancel_seen.is_empty() {
                 return Err(Violation::new(
                     "visible-count",
                     format!(
@@ -350,6 +354,14 @@ impl USys {
             let sentinel_only = |s: &USys, i: usize| s.bufs[s.subs[i].buf].iter().all(|b| *b == SENTINEL);
             let mut matched = None;
             let mut wants = vec![];
+            if res == ECANCELED && fl.is_some() && cands.len() >= 2 {
+                // which of the instances was cancelled shows later: the others complete
+                // with their own results
+                self.floating.remove(fl.unwrap());
+                self.cancel_seen.push((ring, ud));
+                self.log.push(format!("cqe {ud}={res}"));
+                continue;
+            }
             if res == ECANCELED && fl.is_some() {
                 // prefer an instance whose buffer is untouched
                 matched = cands.iter().copied().find(|&i| sentinel_only(self, i) || !matches!(self.subs[i].k, K::Read { .. }));
@@ -485,6 +497,7 @@ impl USys {
             }
         }
         self.floating.clear();
+        self.cancel_seen.clear();
         self.content = self.durable.clone();
         // the application restarts: old handles are kept aside (they must stay dead), new ones are made
         let old_file = self.file.take();
@@ -675,6 +688,7 @@ impl System for USys {
             log: vec![],
             feats: vec![],
             floating: vec![],
+            cancel_seen: vec![],
         };
         {
             let g = s.enter();
@@ -765,7 +779,7 @@ impl System for USys {
         d.add_str(&self.fs.lock().unwrap().verif_dump());
         d.add_str(&self.iou.lock().unwrap().verif_dump(now));
         d.add(&self.subs);
-        d.add(&(&self.content, &self.durable, self.file_open, self.steps, self.crashes, &self.floating, self.churns));
+        d.add(&(&self.content, &self.durable, self.file_open, self.steps, self.crashes, &self.floating, self.churns, &self.cancel_seen));
         d.add(&self.feats.contains(&"duplicate-user-data"));
         d.finish()
     }
@@ -793,6 +807,23 @@ impl System for USys {
             for r in 0..self.cfg.rings {
                 self.drain(r, usize::MAX, None)?;
                 self.drain(r, usize::MAX, None)?;
+            }
+            // cancellations of a shared user_data that were delivered but not attributed: what
+            // is still outstanding under that user_data is what was cancelled
+            let seen = std::mem::take(&mut self.cancel_seen);
+            for (ring, ud) in seen {
+                let rest: Vec<usize> = self.outstanding().into_iter().filter(|&i| self.subs[i].ring == ring && self.subs[i].ud == ud).collect();
+                let Some(&i) = rest.first() else {
+                    return Err(Violation::new(
+                        "exactly-once",
+                        format!("ring {ring}: a -ECANCELED completion for user_data={ud} was delivered, and every operation submitted under it completed normally as well"),
+                    ));
+                };
+                if matches!(self.subs[i].k, K::Read { .. }) && self.bufs[self.subs[i].buf].iter().any(|b| *b != SENTINEL) {
+                    return Err(Violation::new("buffer-touched", format!("user_data={ud} completed with -ECANCELED but the buffer of the cancelled read was modified")));
+                }
+                self.subs[i].st = St::Done;
+                self.subs[i].cqes += 1;
             }
             // a spare ring never had a submission: it stays silent
             for r in self.spare_rings.iter_mut() {
